@@ -33,6 +33,7 @@ import (
 	eth2p0 "github.com/attestantio/go-eth2-client/spec/phase0"
 
 	"github.com/obolnetwork/charon/app/eth2wrap"
+	"github.com/obolnetwork/charon/app/log"
 
 	"verifharness/hx"
 )
@@ -210,6 +211,20 @@ func (n *node) SyncCommitteeDuties(_ context.Context, opts *eth2api.SyncCommitte
 	}
 
 	return &eth2api.Response[[]*eth2v1.SyncCommitteeDuty]{Data: out, Metadata: mkMeta(md)}, nil
+}
+
+// violate records a monitor violation; beyond 20 per signature and run only a counter is kept.
+var nViol = map[string]int{}
+
+func violate(run *hx.Run, sig, descr string) {
+	nViol[sig]++
+	run.Count("violation:" + sig)
+	if nViol[sig] <= 20 {
+		if len(descr) > 600 {
+			descr = descr[:600] + "…"
+		}
+		run.Violate(sig, descr)
+	}
 }
 
 // ---------------------------------------------------------------------------------------------
@@ -505,7 +520,7 @@ func sameSet(a, b []uint64) bool {
 func (ep *episode) checkAnswer(run *hx.Run, who string, k int, e uint64, reqV []uint64, ver uint32, a answer, call *bnCall, begunAfterInvalidation bool) {
 	kk := key{k, e}
 	if a.err != nil {
-		run.Violate("dutiescache:unexpected_error", fmt.Sprintf("%s: %v", who, a.err))
+		violate(run, "dutiescache:unexpected_error", fmt.Sprintf("%s: %v", who, a.err))
 		return
 	}
 	// 1. answer equals the node's own answer (multiset of complete duty objects + metadata)
@@ -576,8 +591,19 @@ func (ep *episode) checkAnswer(run *hx.Run, who string, k int, e uint64, reqV []
 		case missing && !foreign:
 			sig = "dutiescache:answer_missing_duty"
 		}
-		run.Violate(sig, fmt.Sprintf("%s kind %d epoch %d indices %v: cache answers {%s} meta %d, beacon node answers {%s} meta %d",
-			who, k, e, reqV, multiset(got), gotMd, want, wantMd))
+		var gc, wc []string
+		for _, d := range a.duties {
+			x := fmt.Sprintf("%d:%d", d.idx, d.tag)
+			if !d.intact {
+				x += "!"
+			}
+			gc = append(gc, x)
+		}
+		for _, d := range ep.n.answer(ver, k, e, reqV) {
+			wc = append(wc, fmt.Sprintf("%d:%d", d.idx, d.tag))
+		}
+		violate(run, sig, fmt.Sprintf("%s kind %d epoch %d indices %v: cache answers duties {%s} meta %d, the beacon node answers {%s} meta %d",
+			who, k, e, reqV, multiset(gc), gotMd, multiset(wc), wantMd))
 	}
 	// 2. fetched afresh after invalidation / trimming
 	if begunAfterInvalidation {
@@ -587,10 +613,10 @@ func (ep *episode) checkAnswer(run *hx.Run, who string, k int, e uint64, reqV []
 			if ep.straddle[kk] {
 				sig = "dutiescache:stale_inflight_store_across_invalidate"
 			}
-			run.Violate(sig, fmt.Sprintf("%s kind %d epoch %d indices %v served without a full beacon node request after the epoch was invalidated", who, k, e, reqV))
+			violate(run, sig, fmt.Sprintf("%s kind %d epoch %d indices %v served without a full beacon node request after the epoch was invalidated", who, k, e, reqV))
 		}
 		if ep.mustTrim[kk] && !fresh {
-			run.Violate("dutiescache:not_refetched_after_trim", fmt.Sprintf("%s kind %d epoch %d indices %v served without a full beacon node request after the epoch was trimmed", who, k, e, reqV))
+			violate(run, "dutiescache:not_refetched_after_trim", fmt.Sprintf("%s kind %d epoch %d indices %v served without a full beacon node request after the epoch was trimmed", who, k, e, reqV))
 		}
 	}
 	// 3. private copies: no returned object is an object that was returned before
@@ -600,7 +626,7 @@ func (ep *episode) checkAnswer(run *hx.Run, who string, k int, e uint64, reqV []
 			return
 		}
 		if prev, ok := ep.handed[p]; ok {
-			run.Violate(sig, fmt.Sprintf("%s (answer %d) kind %d epoch %d: %s is the same object as %s", who, ep.nAnswers, k, e, what, prev))
+			violate(run, sig, fmt.Sprintf("%s (answer %d) kind %d epoch %d: %s is the same object as %s", who, ep.nAnswers, k, e, what, prev))
 			return
 		}
 		ep.handed[p] = fmt.Sprintf("%s of answer %d", what, ep.nAnswers)
@@ -682,12 +708,12 @@ func (ep *episode) mutateProbe(run *hx.Run, k int, e uint64, idxs []uint64, a an
 	}
 	run.Count("probe:mutate_reread")
 	if m0 != m1 {
-		run.Violate("dutiescache:shared_metadata_map", fmt.Sprintf("kind %d epoch %d: a caller's change to its Metadata map is served to the next caller (%s -> %s)", k, e, m0, m1))
+		violate(run, "dutiescache:shared_metadata_map", fmt.Sprintf("kind %d epoch %d: a caller's change to its Metadata map is served to the next caller (%s -> %s)", k, e, m0, m1))
 	}
 	if s0 != s1 {
-		run.Violate("dutiescache:shared_slice_sync_indices", fmt.Sprintf("kind %d epoch %d: a caller's change to ValidatorSyncCommitteeIndices is served to the next caller (%s -> %s)", k, e, s0, s1))
+		violate(run, "dutiescache:shared_slice_sync_indices", fmt.Sprintf("kind %d epoch %d: a caller's change to ValidatorSyncCommitteeIndices is served to the next caller (%s -> %s)", k, e, s0, s1))
 	} else if f0 != f1 {
-		run.Violate("dutiescache:shared_duty_struct", fmt.Sprintf("kind %d epoch %d: a caller's change to a duty is served to the next caller (%s -> %s)", k, e, f0, f1))
+		violate(run, "dutiescache:shared_duty_struct", fmt.Sprintf("kind %d epoch %d: a caller's change to a duty is served to the next caller (%s -> %s)", k, e, f0, f1))
 	}
 	ep.keepAlive = append(ep.keepAlive, r0.keep, r1.keep)
 }
@@ -719,7 +745,7 @@ func (ep *episode) doGet(run *hx.Run, k int, e uint64, idxs []uint64) string {
 	if len(ep.n.calls) > nCalls {
 		call = &ep.n.calls[nCalls]
 		if len(ep.n.calls) > nCalls+1 {
-			run.Violate("dutiescache:multiple_bn_calls", "one cache call made more than one beacon node request")
+			violate(run, "dutiescache:multiple_bn_calls", "one cache call made more than one beacon node request")
 		}
 	}
 	ep.checkAnswer(run, "get", k, e, reqV, ver, a, call, true)
@@ -766,10 +792,10 @@ func (ep *episode) doBegin(run *hx.Run, id, k int, e uint64, idxs []uint64) stri
 			if ep.straddle[kk] {
 				sig = "dutiescache:stale_inflight_store_across_invalidate"
 			}
-			run.Violate(sig, fmt.Sprintf("begin kind %d epoch %d indices %v: partial beacon node request after the epoch was invalidated", k, e, reqV))
+			violate(run, sig, fmt.Sprintf("begin kind %d epoch %d indices %v: partial beacon node request after the epoch was invalidated", k, e, reqV))
 		}
 		if ep.mustTrim[kk] && !fresh {
-			run.Violate("dutiescache:not_refetched_after_trim", fmt.Sprintf("begin kind %d epoch %d indices %v: partial beacon node request after the epoch was trimmed", k, e, reqV))
+			violate(run, "dutiescache:not_refetched_after_trim", fmt.Sprintf("begin kind %d epoch %d indices %v: partial beacon node request after the epoch was trimmed", k, e, reqV))
 		}
 		delete(ep.mustReorg, kk)
 		delete(ep.mustTrim, kk)
@@ -882,6 +908,7 @@ func parseList(s string) []uint64 {
 
 func main() {
 	a := hx.ParseArgs()
+	hx.Must(log.InitLogger(log.Config{Level: "error", Format: "console", Color: "disable"}))
 	run := hx.NewRun(a.Dir)
 	defer run.Close()
 	var ep *episode
